@@ -1,5 +1,6 @@
 import DriverLib.Util
 import PytmeModel.Model.C18
+import PytmeModel.Model.C18Cli
 open Lean Drv Pm Pm.C18
 namespace Drv.C18
 
@@ -16,7 +17,177 @@ def jLoaded : Loaded → Json
   | .tup a b => Json.mkObj [("kind", jStr "tup"), ("first", jStr a), ("rest", jStr b)]
   | .memmap e => Json.mkObj [("kind", jStr "memmap"), ("enc", jStr e)]
 
-def handle (op : String) (a : Json) : Option R :=
+/-- optional field: absent or `null` ↦ `none` -/
+def optInt (a : Json) (k : String) : Except String (Option Int) :=
+  match a.getObjVal? k with
+  | .ok .null => pure none
+  | .ok v => do pure (some (← v.getInt?))
+  | .error _ => pure none
+
+def optNat (a : Json) (k : String) : Except String (Option Nat) :=
+  match a.getObjVal? k with
+  | .ok .null => pure none
+  | .ok v => do pure (some (← v.getNat?))
+  | .error _ => pure none
+
+def optIntList (a : Json) (k : String) : Except String (Option (List Int)) :=
+  match a.getObjVal? k with
+  | .ok .null => pure none
+  | .ok v => do pure (some (← intList (← v.getArr?)))
+  | .error _ => pure none
+
+def optStrList (a : Json) (k : String) : Except String (Option (List String)) :=
+  match a.getObjVal? k with
+  | .ok .null => pure none
+  | .ok v => do pure (some (← (← v.getArr?).toList.mapM (·.getStr?)))
+  | .error _ => pure none
+
+def jOptInt : Option Int → Json
+  | some v => jInt v
+  | none => Json.null
+
+def jVox (v : Vox) : Json := Json.arr #[jNats v.pos, jInt v.score]
+
+def voxOfJson (j : Json) : Except String Vox := do
+  let a ← j.getArr?
+  match a.toList with
+  | [p, s] => pure ⟨← natList (← p.getArr?), ← s.getInt?⟩
+  | _ => throw "BadArg:vox"
+
+def memberName : Member → String
+  | .scores => "scores" | .offset => "offset" | .rotations => "rotations" | .rotationMapping => "rotation_mapping"
+  | .translations => "translations" | .peakRotations => "peak_rotations" | .peakScores => "peak_scores" | .details => "details"
+  | .info => "meta"
+
+def jPlan : RotPlan → Json
+  | .identity s o => Json.mkObj [("branch", jStr "identity"), ("angular", jInt s), ("optimized", jBool o)]
+  | .grid s o => Json.mkObj [("branch", jStr "grid"), ("angular", jInt s), ("optimized", jBool o)]
+  | .cone ca cs aa as n => Json.mkObj [("branch", jStr "cone"), ("cone_angle", jOptInt ca), ("cone_sampling", jOptInt cs),
+      ("axis_angle", jInt aa), ("axis_sampling", jOptInt as), ("n_symmetry", jInt n)]
+
+def jAns : SchedAns → Json
+  | none => Json.null
+  | some (sp, (o, i)) => Json.mkObj [("splits", jNats sp), ("schedule", jNats [o, i])]
+
+def ansOf (j : Json) : Except String SchedAns :=
+  match j with
+  | .null => pure none
+  | _ => do
+    let sp ← getNatList j "splits"
+    match ← getNatList j "schedule" with
+    | [o, i] => pure (some (sp, (o, i)))
+    | _ => throw "BadArg:schedule"
+
+def maskCheckName : MaskCheck → String
+  | .noMask => "none" | .ok => "ok" | .shapeMismatch => "shape" | .samplingMismatch => "sampling" | .broadcastError => "broadcast"
+
+def argCheckName : ArgCheck → String
+  | .ok => "ok" | .needWedgeAxes => "need-wedge-axes" | .tiltNeitherFileNorRange => "tilt-neither-file-nor-range"
+  | .needTiltAngles => "need-tilt-angles"
+
+/-- the stub of `compute_parallelization_schedule`: answers keyed by the padding it is called with -/
+def cpsOf (table : List (List Nat × SchedAns)) (c : SchedCall) : SchedAns :=
+  match table.find? (fun e => e.1 == c.padding) with
+  | some e => e.2
+  | none => none
+
+def handleCli (op : String) (a : Json) : Option R :=
+  match op with
+  | "c18.postprocess" => some do
+      -- the whole chain of decisions of postprocess.main for a score-map result read with PeakCallerSort / --min_distance 0
+      let shape ← getNatList a "shape"
+      let vox := voxOf shape (← getIntList a "scores") (← optIntList a "mask")
+      let lo ← optInt a "lo"
+      let hi ← optInt a "hi"
+      let d := effDist (← getBool a "mask_edges") (← getNat a "d") (← getNatList a "tshape")
+      let k := ppNumberOfPeaks lo.isSome (← getBool a "has_nfp") (← optNat a "number_of_peaks")
+      pure (Json.mkObj [("d", jNat d), ("k", jNat k),
+                        ("reported", jList ((ppMain k d shape lo hi vox).map jVox)),
+                        ("survivors", jList ((survivors d shape lo hi vox).map jVox))])
+  | "c18.ppPeaks" => some do
+      let cands ← (← getArr a "cands").toList.mapM voxOfJson
+      pure (jList ((scoreFilter (← optInt a "lo") (← optInt a "hi") cands).map jVox))
+  | "c18.ppArgs" => some do
+      let bg := match ppBackground (← optStrList a "background") (← getNat a "n_inputs") with
+        | .ok l => jList (l.map (fun x => match x with | some s => jStr s | none => Json.null))
+        | .error e => jStr e
+      pure (Json.mkObj [("number_of_peaks", jNat (ppNumberOfPeaks (← getBool a "has_min") (← getBool a "has_nfp") (← optNat a "number_of_peaks"))),
+                        ("background", bg), ("relion_box", jNat (relionBox (← getNat a "box")))])
+  | "c18.window" => some do
+      let shape ← getNatList a "shape"
+      let pos ← getNatList a "pos"
+      pure (Json.mkObj [("in", jBool (inWindow (← getNat a "d") shape pos)),
+                        ("dist", match borderDist shape pos with | some b => jNat b | none => Json.null)])
+  | "c18.layout" => some do
+      let pc ← getBool a "peak_calling"
+      let D ← getNat a "ndim"
+      let w := writerLayout pc
+      pure (Json.mkObj [("writer", jList (w.map (fun m => jStr (memberName m)))),
+                        ("ndims", jList (w.map (fun m => match memberNdim D m with | some n => jNat n | none => Json.null))),
+                        ("score_map", jBool (readerIsScoreMap D w)),
+                        ("reader", jList ((readerNames (readerIsScoreMap D w)).map (fun m => jStr (memberName m))))])
+  | "c18.rotPlan" => some do
+      let ra : RotArgs := ⟨← optInt a "angular", ← getBool a "no_optimized", ← optInt a "cone_angle", ← optInt a "cone_sampling",
+                           ← getInt a "axis_angle", ← optInt a "axis_sampling", ← getInt a "axis_symmetry"⟩
+      pure (Json.mkObj [("plan", jPlan (rotPlan ra)), ("axis_sampling_after", jOptInt (rotArgsAfter ra).axisSampling)])
+  | "c18.schedule" => some do
+      let table ← (← getArr a "answers").toList.mapM (fun e => do
+        let pad ← getNatList e "padding"
+        let ans ← ansOf (← e.getObjVal? "answer")
+        pure (pad, ans))
+      let tmpl ← getNatList a "tmpl"
+      let pe ← getBool a "pad_edges"
+      let pf ← getBool a "pad_fourier"
+      let o := schedule (cpsOf table) tmpl pf pe
+      let tshape ← match (← optNat a "use_tshape") with
+        | some _ => getNatList a "tshape"
+        | none => pure tmpl
+      let pc := (← optNat a "peak_calling") == some 1
+      let f := scanFlags pe pf (← getBool a "pad_filter") (← getBool a "no_centering") (cpsOf table) tmpl tshape
+      pure (Json.mkObj [("calls", jList (o.calls.map (fun c => Json.mkObj [("box", jNats c.box), ("padding", jNats c.padding)]))),
+                        ("result", jAns o.result), ("pad_edges_after", jBool o.padEdgesAfter),
+                        ("scan", Json.mkObj [("pad_target_edges", jBool f.padTargetEdges), ("pad_fourier", jBool f.padFourier),
+                                             ("pad_template_filter", jBool f.padTemplateFilter), ("centre", jBool f.centre),
+                                             ("min_distance", jNat f.minDistance)]),
+                        ("callback", jStr (callbackName pc)),
+                        ("mask_applied", jBool (maskApplied pc ((← optNat a "has_target_mask") == some 1) ((← optNat a "is_mcc") == some 1)))])
+  | "c18.backend" => some do
+      let av ← (← getArr a "available").toList.mapM (·.getStr?)
+      let req := match a.getObjVal? "backend" with
+        | .ok (.str r) => some r
+        | _ => none
+      let c := selectBackend av req (← getBool a "use_gpu") (← getBool a "mixed") (← getBool a "peak_calling")
+      let o := backendInterpolation c (mtInterpolation (← getInt a "interpolation_order"))
+      pure (Json.mkObj [("choice", match c with
+                          | .rejected => jStr "rejected"
+                          | .unchanged => jStr "unchanged"
+                          | .chosen n dev => Json.arr #[jStr n, match dev with | some x => jStr x | none => Json.null]),
+                        ("interpolation", jOptInt o)])
+  | "c18.merge" => some do
+      -- inputs: one flat score list per input file; answer: per voxel [score, entity]
+      let inputs ← getIntListList a "inputs"
+      let n := match inputs with | [] => 0 | f :: _ => f.length
+      pure (jList ((List.range n).map (fun i =>
+        let r := mergeVoxel (inputs.map (fun l => l.getD i 0))
+        Json.arr #[jInt r.1, jNat r.2])))
+  | "c18.bgNorm" => some do
+      -- voxelwise: fg[i] = fgNum[i] / den, bg[i] = bgNum[i] / den
+      let den ← getNat a "den"
+      let fg ← getIntList a "fg"
+      let bg ← getIntList a "bg"
+      pure (jList (List.zipWith (fun x y => match bgNorm (x, den) (y, den) with
+        | .fin n d => Json.arr #[jInt n, jNat d]
+        | .inf => jStr "inf") fg bg))
+  | "c18.maskCheck" => some do
+      pure (jStr (maskCheckName (maskCheck (← getBool a "has_path") (← getIntList a "mshape") (← getIntList a "tshape")
+                                           (← getIntList a "mrate") (← getIntList a "trate"))))
+  | "c18.mtArgs" => some do
+      pure (Json.mkObj [("check", jStr (argCheckName (mtValidate (← getBool a "has_tilt") (← getBool a "tilt_is_file")
+                                     (← getBool a "tilt_is_number") (← getBool a "has_wedge_axes") (← getBool a "has_ctf")))),
+                        ("interpolation", jOptInt (mtInterpolation (← getInt a "interpolation_order")))])
+  | _ => none
+
+def handleBase (op : String) (a : Json) : Option R :=
   match op with
   | "c18.pickle" => some do
       let items ← (← getArr a "items").toList.mapM itemOf
@@ -41,4 +212,9 @@ def handle (op : String) (a : Json) : Option R :=
   | "c18.refPos" => some do
       pure (jInts (refPos (← getNatList a "ms") (← getIntList a "P0")))
   | _ => none
+
+def handle (op : String) (a : Json) : Option R :=
+  match handleBase op a with
+  | some r => some r
+  | none => handleCli op a
 end Drv.C18
